@@ -14,6 +14,7 @@ import (
 	"time"
 
 	"cuelabs.dev/go/oci/ociregistry"
+	"cuelabs.dev/go/oci/ociregistry/ociauth"
 	"cuelabs.dev/go/oci/ociregistry/ociclient"
 	"cuelabs.dev/go/oci/ociregistry/ociserver"
 	"github.com/opencontainers/go-digest"
@@ -351,7 +352,15 @@ type chain struct {
 //   - LocationsForDescriptor: a blob GET resolves the blob first and answers with a redirect
 //     to a second server of the same level (same backend, same recorder, no redirects);
 //   - DisableSinglePostUpload and a MaxListPageSize above the clients' page size.
-var configs = []string{"", "quirks"}
+//
+// "auth" puts ociauth's standard transport (ociauth.NewStdTransport, no credentials configured
+// for any host) between every client and its server, and makes the servers answer as registries
+// that ask for authentication do: level 1 and 3 add a Basic challenge to their error responses
+// (nothing to present: the transport hands the 401 back), level 2 a scheme the transport does
+// not know (no usable challenge).  The transport must be invisible to the error.
+var configs = []string{"", "quirks", "auth"}
+
+var authChallenges = []string{`Basic realm="c07 level 1"`, `Negotiate`, `Basic realm="c07 level 3", charset="UTF-8"`}
 
 func newChain(cfg string) *chain {
 	c := &chain{cfg: cfg, b: &backend{}}
@@ -376,9 +385,18 @@ func newChain(cfg string) *chain {
 			}
 			opts = &o
 		}
+		copts := &ociclient.Options{Insecure: true, ListPageSize: 2}
+		if cfg == "auth" {
+			challenge := authChallenges[i%len(authChallenges)]
+			opts = &ociserver.Options{WriteError: func(w http.ResponseWriter, _ *http.Request, err error) {
+				w.Header().Set("WWW-Authenticate", challenge)
+				ociregistry.WriteError(w, err)
+			}}
+			copts.Transport = ociauth.NewStdTransport(ociauth.StdTransportParams{})
+		}
 		srv := httptest.NewServer(rec.wrap(ociserver.New(inner, opts)))
 		u, _ := url.Parse(srv.URL)
-		cl, err := ociclient.New(u.Host, &ociclient.Options{Insecure: true, ListPageSize: 2})
+		cl, err := ociclient.New(u.Host, copts)
 		if err != nil {
 			panic(err)
 		}
